@@ -15,111 +15,81 @@ import (
 	"verif/internal/core"
 )
 
-// hp3Walk explores the CFG from the start of block b0. Instructions are
-// visited in order; target ends the search with that instruction, stop
-// abandons the path. At the end of a block only(b), when non-nil, restricts
-// the walk to one successor (used to follow one edge of a branch).
-func hp3Walk(b0 *ssa.BasicBlock, stop, target func(ssa.Instruction) bool, only func(*ssa.BasicBlock) *ssa.BasicBlock) ssa.Instruction {
-	seen := map[*ssa.BasicBlock]bool{b0: true}
-	work := []*ssa.BasicBlock{b0}
-	for len(work) > 0 {
-		b := work[len(work)-1]
-		work = work[:len(work)-1]
-		cut := false
-		for _, in := range b.Instrs {
-			if target(in) {
-				return in
-			}
-			if stop != nil && stop(in) {
-				cut = true
-				break
-			}
-		}
-		if cut {
-			continue
-		}
-		succs := b.Succs
-		if only != nil {
-			if s := only(b); s != nil {
-				succs = []*ssa.BasicBlock{s}
-			}
-		}
-		for _, s := range succs {
-			if !seen[s] {
-				seen[s] = true
-				work = append(work, s)
-			}
-		}
-	}
-	return nil
-}
-
-// hp3ErrOnly: control that enters b can only end in returns that carry a
-// certainly non-nil error (at least one), and cannot come back to `back`.
-func hp3ErrOnly(b, back *ssa.BasicBlock) bool {
+// hp3ErrOnly: control that enters b can only end in exits of the anchor that
+// carry a certainly non-nil error (at least one), and cannot come back to
+// `back`. Calls of private helpers are followed, and a `return helper()` exit
+// is read with the error of the helper's own return.
+func hp3ErrOnly(g *hxReg, b, back *ssa.BasicBlock) bool {
 	n := 0
-	for x := range hxReach(b) {
-		if x == back {
-			return false
+	bad := g.walk(b, 0, hxSt{}, func(in ssa.Instruction, st hxSt) (bool, bool) {
+		if in.Block() == back {
+			return false, true
 		}
-		for _, in := range x.Instrs {
-			if r, ok := in.(*ssa.Return); ok {
-				if !hxErrOf(hxErrResult(r)).NonNil {
-					return false
-				}
-				n++
+		if r, ok := in.(*ssa.Return); ok && r.Parent() == g.Root {
+			if !g.errClass(r, st).NonNil {
+				return false, true
 			}
+			n++
 		}
-	}
-	return n > 0
+		return false, false
+	})
+	return !bad && n > 0
 }
 
-// hp3Clauses finds the branches of fn, located after the byte loop (the loop
-// body loopB is reachable to them but not from them), one edge of which leads
-// to error returns only and whose condition, read with the polarity of that
-// edge, is accepted by match.
-func hp3Clauses(fn *ssa.Function, loopB *ssa.BasicBlock, match func(r hxRel) bool) []*ssa.If {
+// hp3Clauses finds the branches of the region, located after the byte loop
+// (the loop body loopB reaches them but they do not reach it), one edge of
+// which leads to error exits only and whose condition, read with the polarity
+// of that edge, is accepted by match.
+func hp3Clauses(g *hxReg, loopB *ssa.BasicBlock, match func(r hxRel) bool) []*ssa.If {
 	var out []*ssa.If
-	fromLoop := hxReach(loopB)
-	for _, in := range hxInstrs(fn) {
+	for _, in := range g.Instrs() {
 		ifi, ok := in.(*ssa.If)
 		if !ok {
 			continue
 		}
 		b := ifi.Block()
-		if !fromLoop[b] || hxReach(b)[loopB] || len(b.Succs) != 2 || b.Succs[0] == b.Succs[1] {
+		if len(b.Succs) != 2 || b.Succs[0] == b.Succs[1] {
 			continue
 		}
+		matched := -1
 		for i, pol := range []bool{true, false} {
-			rel, ok := hxRelOf(ifi.Cond, pol)
-			if ok && match(rel) && hp3ErrOnly(b.Succs[i], loopB) {
-				out = append(out, ifi)
+			if rel, ok := hxRelOf(ifi.Cond, pol); ok && match(rel) {
+				matched = i
 				break
 			}
+		}
+		if matched < 0 || !g.blockReaches(loopB, b) || g.blockReaches(b, loopB) {
+			continue
+		}
+		if hp3ErrOnly(g, b.Succs[matched], loopB) {
+			out = append(out, ifi)
 		}
 	}
 	return out
 }
 
 // c31HuffmanTail decides the two padding clauses of RFC 7541 section 5.2 in
-// huffmanDecode. (1) existence: after the last input byte some branch to an
-// error-only exit tests the number of undecoded bits against > 7, and some
-// branch to an error-only exit tests the value of the undecoded bits. (2)
-// totality: once an input byte has been read, no return that may report
-// success is reachable without passing those tests; a return that the guards
-// place under "no undecoded bits" (counter <= 0) needs no value test.
-func c31HuffmanTail(c *core.Ctx, fn *ssa.Function, byteLoad *ssa.UnOp, isCounter, isBitBuf func(ssa.Value) bool) {
+// huffmanDecode (and its private helpers). (1) existence: after the last
+// input byte some branch to an error-only exit tests the number of undecoded
+// bits against > 7, and some branch to an error-only exit tests the value of
+// the undecoded bits. (2) totality: once an input byte has been read, no exit
+// that may report success is reachable without passing those tests; an exit
+// that the guards place under "no undecoded bits" (counter <= 0) needs no
+// value test.
+func c31HuffmanTail(c *core.Ctx, g *hxReg, byteLoad *ssa.UnOp, isCounter, isBitBuf func(ssa.Value) bool) {
+	fn := g.Root
 	loopB := byteLoad.Block()
-	lenIfs := hp3Clauses(fn, loopB, func(r hxRel) bool {
+	lenIfs := hp3Clauses(g, loopB, func(r hxRel) bool {
 		lo, has := hxLower([]hxRel{r}, isCounter)
 		return has && lo == 8
 	})
-	onesIfs := hp3Clauses(fn, loopB, func(r hxRel) bool {
+	onesIfs := hp3Clauses(g, loopB, func(r hxRel) bool {
 		return (r.Op == token.NEQ || r.Op == token.EQL) && (isBitBuf(r.L) || isBitBuf(r.R)) && !hxIsNil(r.R) && !hxIsNil(r.L)
 	})
+	rets := g.Returns()
 	tailPos := fn.Pos()
-	for _, r := range core.Returns(fn) {
-		if hxReach(loopB)[r.Block()] && !hxReach(r.Block())[loopB] {
+	for _, r := range rets {
+		if g.blockReaches(loopB, r.Block()) && !g.blockReaches(r.Block(), loopB) {
 			tailPos = r.Pos()
 		}
 	}
@@ -127,8 +97,8 @@ func c31HuffmanTail(c *core.Ctx, fn *ssa.Function, byteLoad *ssa.UnOp, isCounter
 		"after the last input byte no error return depends on the number of undecoded bits being > 7: padding longer than 7 bits (or a truncated symbol) is accepted instead of being a decoding error (RFC 7541 section 5.2)")
 	c.Check("huffman-tail", "huffmanDecode:padding-not-eos-prefix", tailPos, len(onesIfs) > 0,
 		"after the last input byte no error return depends on the value of the undecoded bits: padding that is not the most-significant bits of EOS (all ones) is accepted instead of being a decoding error (RFC 7541 section 5.2)")
-	isOneOf := func(set []*ssa.If) func(ssa.Instruction) bool {
-		return func(in ssa.Instruction) bool {
+	isOneOf := func(set []*ssa.If) func(ssa.Instruction, hxSt) bool {
+		return func(in ssa.Instruction, _ hxSt) bool {
 			for _, x := range set {
 				if in == ssa.Instruction(x) {
 					return true
@@ -138,24 +108,30 @@ func c31HuffmanTail(c *core.Ctx, fn *ssa.Function, byteLoad *ssa.UnOp, isCounter
 		}
 	}
 	k := 0
-	for _, r := range core.Returns(fn) {
-		if hxErrOf(hxErrResult(r)).NonNil {
+	for _, r := range rets {
+		if hxErrOf(hxErrResult(r)).NonNil || hxErrNonNilAt(hxErrResult(r), r.Block()) {
 			continue
 		}
 		ret := r
-		isRet := func(in ssa.Instruction) bool { return in == ssa.Instruction(ret) }
-		if core.ReachAvoiding(fn, byteLoad, nil, isRet) == nil {
+		// the exit of the anchor that this return stands for, reached with a result that may be success
+		isRet := func(in ssa.Instruction, st hxSt) bool {
+			if !g.isFinal(in, st, ret) {
+				return false
+			}
+			return !g.errClass(in.(*ssa.Return), st).NonNil
+		}
+		if g.reach(byteLoad, nil, isRet) == nil {
 			continue // not reachable once a byte has been read (empty-input exit)
 		}
 		key := fmt.Sprintf("huffmanDecode:success-return#%d", k)
 		k++
 		if len(lenIfs) > 0 {
-			bad := core.ReachAvoiding(fn, byteLoad, isOneOf(lenIfs), isRet)
+			bad := g.reach(byteLoad, isOneOf(lenIfs), isRet)
 			c.Check("huffman-tail", key+":passes-padding-length-test", r.Pos(), bad == nil,
 				"after an input byte has been read this return is reachable without passing the test of the undecoded bit count against 7: on that path a truncated symbol or 8 and more bits of padding (for instance a symbol that ends on an octet boundary followed by ff, or the lone octet fe) are accepted instead of being a decoding error (RFC 7541 section 5.2); guards here: "+hxRelStrs(hxRelsAt(r.Block())))
 		}
 		if len(onesIfs) > 0 {
-			bad := core.ReachAvoiding(fn, byteLoad, isOneOf(onesIfs), isRet)
+			bad := g.reach(byteLoad, isOneOf(onesIfs), isRet)
 			if bad != nil {
 				if ub, has := hxUpper(hxRelsAt(r.Block()), isCounter); has && ub <= 0 {
 					bad = nil // no undecoded bits are left here
@@ -180,9 +156,10 @@ func c31IndexedImpliesAdd(c *core.Ctx, lit *ssa.Function) {
 	if len(lit.Blocks) == 0 {
 		return
 	}
+	g := hxRegionOf(c.P, lit)
 	// the it.indexed() branches: branch block -> successor taken when indexed
 	indexedSucc := map[*ssa.BasicBlock]*ssa.BasicBlock{}
-	for _, in := range hxInstrs(lit) {
+	for _, in := range g.Instrs() {
 		ifi, ok := in.(*ssa.If)
 		if !ok || len(ifi.Block().Succs) != 2 {
 			continue
@@ -209,16 +186,27 @@ func c31IndexedImpliesAdd(c *core.Ctx, lit *ssa.Function) {
 		ci, ok := in.(ssa.CallInstruction)
 		return ok && core.CallIs(ci.Common(), hxHpack+".dynamicTable.add")
 	}
-	isSuccess := func(in ssa.Instruction) bool {
+	// an exit of parseFieldLiteral that reports success: nil, or the result of callEmit (also when a private helper's return is handed on)
+	isSuccess := func(in ssa.Instruction, st hxSt) bool {
 		r, ok := in.(*ssa.Return)
-		if !ok {
+		if !ok || r.Parent() != lit {
 			return false
+		}
+		if st.ret != nil && hxPassesOn(r, st.call) {
+			r = st.ret
 		}
 		ev := hxErrResult(r)
 		cc, _ := hxCallOf(ev)
 		return hxErrOf(ev).Nil || (cc != nil && core.CallIs(&cc.Call, hxHpack+".Decoder.callEmit"))
 	}
-	bad := hp3Walk(lit.Blocks[0], isAdd, isSuccess, func(b *ssa.BasicBlock) *ssa.BasicBlock { return indexedSucc[b] })
+	var bad ssa.Instruction
+	g.walkE(lit.Blocks[0], 0, hxSt{}, func(in ssa.Instruction, st hxSt) (bool, bool) {
+		if isSuccess(in, st) {
+			bad = in
+			return false, true
+		}
+		return isAdd(in), false
+	}, func(b *ssa.BasicBlock) *ssa.BasicBlock { return indexedSucc[b] })
 	pos := lit.Pos()
 	if bad != nil {
 		pos = bad.Pos()
@@ -298,9 +286,11 @@ func c31AddUnconditional(c *core.Ctx, fn *ssa.Function) {
 			return ok && core.CallIs(ci.Common(), hxHpack+".dynamicTable.evict")
 		}},
 	}
+	g := hxRegionOf(c.P, fn)
+	isExit := func(in ssa.Instruction) bool { return core.IsReturn(in) && in.Parent() == fn }
 	var why string
 	for _, s := range steps {
-		if bad := core.ReachAvoiding(fn, nil, s.is, core.IsReturn); bad != nil {
+		if bad := g.reachI(nil, s.is, isExit); bad != nil {
 			if why != "" {
 				why += "; "
 			}
@@ -320,7 +310,7 @@ func c31EvictFits(c *core.Ctx, fn *ssa.Function) {
 		return
 	}
 	n := 0
-	for _, r := range core.Returns(fn) {
+	for _, r := range hxRegionOf(c.P, fn).Returns() {
 		rels := hxRelsAt(r.Block())
 		_, le := hxLE(rels, func(v ssa.Value) bool { return hxIsField(v, sizeF) }, func(v ssa.Value) bool { return hxIsField(v, maxF) })
 		pos := r.Pos()
